@@ -4,6 +4,7 @@ CONSTANTS
   Bufs2 = {1,2,3,7,40000}
   Modes = {0}
   Long = TRUE
+  BSizes = {}
   Track = FALSE
 INIT Init
 NEXT Next
